@@ -46,6 +46,7 @@ def gen(rng, tier):
         if tier == "quick" and len(got) > 1500:
             got = got[:: len(got) // 1500 + 1]
         cs += got
+    cs += c08.blake2b_window_cases(rng, tier)      # the hold-back arithmetic of BLAKE2b's update, on every backend (not subsampled)
     # the same bytes through every way of building a fixed-length container (slice, by value, locked, read-only locked)
     for n in (16, 24, 32, 64):
         for k in range(6):
